@@ -23,6 +23,7 @@ import (
 	"pgregory.net/rapid"
 
 	"github.com/milvus-io/milvus-proto/go-api/v2/commonpb"
+	"github.com/milvus-io/milvus-proto/go-api/v2/milvuspb"
 
 	"verifharness/fakes/milvus"
 	"verifharness/fakes/mq"
@@ -57,6 +58,11 @@ func c06Body(t *rapid.T) {
 	st := stats.New("C06")
 	sameTarget := rapid.Bool().Draw(t, "sameTarget")
 	packerMax := rapid.SampledFrom([]int{1, 1, 2, 3}).Draw(t, "packerMax")
+	class := rapid.SampledFrom([]string{"write_rejected", "write_rejected", "checkpoint_rejected", "unknown_partition", "ddl_rejected"}).Draw(t, "class")
+	persistent := rapid.Bool().Draw(t, "persistent")
+	if v := os.Getenv("VERIF_C06_CLASS"); v != "" { // debugging aid
+		class = v
+	}
 	w := newWorld(t, worldOpt{targets: 2, packerMax: packerMax})
 	defer w.close(t)
 	w.start(t, false)
@@ -79,7 +85,15 @@ func c06Body(t *rapid.T) {
 		id, _ := r.Data["task_id"].(string)
 		return id
 	}
-	idA, idB := mk(ta, "ca"), mk(tb, "cb")
+	var idA, idB string
+	if class == "ddl_rejected" {
+		// A selects every collection of the database (minus cb when B owns it on the same target), so that a collection created
+		// upstream while A runs belongs to A
+		idB = mk(tb, "cb")
+		idA = mk(ta, "*")
+	} else {
+		idA, idB = mk(ta, "ca"), mk(tb, "cb")
+	}
 
 	produce := func(c *srcColl, n int) []int64 {
 		var rows []int64
@@ -146,8 +160,6 @@ func c06Body(t *rapid.T) {
 
 	// ---- phase 2: the fault
 	// (a store that also rejects the state update of the automatic pause is a double fault outside the statement: not generated)
-	class := rapid.SampledFrom([]string{"write_rejected", "write_rejected", "checkpoint_rejected", "unknown_partition"}).Draw(t, "class")
-	persistent := rapid.Bool().Draw(t, "persistent")
 	var fired atomic.Int32
 	isA := func(pk *milvus.Pack) bool {
 		for _, m := range pk.Msgs {
@@ -175,6 +187,19 @@ func c06Body(t *rapid.T) {
 				}
 				return nil
 			})
+		}
+	case "ddl_rejected":
+		// a collection selected by A is created upstream while A runs; the downstream rejects its CreateCollection
+		w.targets[ta].Before = func(cc *milvus.CallCtx) error {
+			if r, ok := cc.Req.(*milvuspb.CreateCollectionRequest); ok && cc.Method == "CreateCollection" && r.GetCollectionName() == "cnew" && (persistent || fired.Load() == 0) {
+				fired.Add(1)
+				return fmt.Errorf("injected: downstream rejects the DDL")
+			}
+			return nil
+		}
+		w.addSourceCollection(t, "default", "cnew", 1, nil)
+		if !waitTicking(p, pchs, 15*time.Second, func() bool { return fired.Load() > 0 }) {
+			t.Fatalf("VERIF-TROUBLE C06: the create-collection DDL of the new collection never reached the downstream")
 		}
 	case "checkpoint_rejected":
 		w.inc.store.setHook(func(op *storeOp) error {
@@ -221,14 +246,15 @@ func c06Body(t *rapid.T) {
 	// A ends paused with a reason - unless the fault was transient and the writer's own retry got the pack through
 	paused := waitTicking(p, pchs, 10*time.Second, func() bool {
 		s, _ := taskView(w, t, idA)
-		return s == "Paused" || (class == "write_rejected" && !persistent && fired.Load() > 0 && arrivedAll(ta, failA)())
+		return s == "Paused" || (class == "write_rejected" && !persistent && fired.Load() > 0 && arrivedAll(ta, failA)()) ||
+			(class == "ddl_rejected" && !persistent && w.targets[ta].Collection("default", "cnew") != nil && arrivedAll(ta, failA)())
 	})
 	sA, rA := taskView(w, t, idA)
 	sB, rB := taskView(w, t, idB)
 	if fired.Load() == 0 {
 		t.Fatalf("VERIF-TROUBLE C06 [%s]: the fault never fired", desc)
 	}
-	if class == "write_rejected" && sA == "Running" && !persistent && arrivedAll(ta, failA)() {
+	if (class == "write_rejected" || (class == "ddl_rejected" && w.targets[ta].Collection("default", "cnew") != nil)) && sA == "Running" && !persistent && arrivedAll(ta, failA)() {
 		// nothing failed for good: the message was retried, not skipped
 		if sB != "Running" || rB != "" {
 			t.Fatalf("VERIF-VIOLATION C06 [%s]: the other task B changed: state %s reason %q", desc, sB, rB)
@@ -255,7 +281,7 @@ func c06Body(t *rapid.T) {
 	// at rest: nothing of A accepted after the failing pack; checkpoint not beyond the acknowledged prefix
 	quiesce.WaitStable(func() int { return w.targets[0].NumCalls() + w.targets[1].NumCalls() }, 6*time.Second)
 	acc := acceptedRows(w.targets[ta])
-	if class != "checkpoint_rejected" {
+	if class != "checkpoint_rejected" && class != "ddl_rejected" { // (rows of ca produced while the DDL of cnew was failing may be written before A pauses)
 		for i, r := range failA {
 			if acc[r] > 0 && !(i == 0 && false) {
 				// with a once-only write fault the first failing pack is rejected, later packs of A must not be written either: A is paused
@@ -309,12 +335,22 @@ func c06Body(t *rapid.T) {
 			}
 			t.Fatalf("VERIF-VIOLATION C06 [%s]: after resume %d of the %d rows of the failing packs never reach the downstream (silently skipped)", desc, missing, len(failA))
 		}
-		// not at rest (goroutines of this or of earlier cases in the process are still retrying): no verdict
+		// not at rest (goroutines of this case are still retrying): no verdict
 		st.Count("inconclusive_after_resume(not at rest)", 1)
 		st.Class("class:" + class)
 		st.Fingerprint(desc)
 		st.Done()
 		return
+	}
+	if class == "ddl_rejected" {
+		// the rejected DDL is not skipped either: after the resume the collection exists downstream
+		if !waitTicking(p, pchs, 12*time.Second, func() bool { return w.targets[ta].Collection("default", "cnew") != nil }) {
+			if _, quiet := quiesce.WaitStable(func() int { return w.targets[0].NumCalls() + w.targets[1].NumCalls() }, 6*time.Second); quiet {
+				sA2, rA2 := taskView(w, t, idA)
+				t.Fatalf("VERIF-VIOLATION C06 [%s]: after resume the rejected create-collection was never replayed: collection cnew does not exist downstream (A: %s %q)", desc, sA2, rA2)
+			}
+			st.Count("inconclusive_after_resume(not at rest)", 1)
+		}
 	}
 	st.Class("class:" + class)
 	st.ClassIf(sameTarget, "two_tasks_same_target")
